@@ -199,6 +199,46 @@ pub mod crypto {
 }
 
 // ------------------------------------------------------------------------------------------------
+// a blocking transport that may deliver short reads (as a socket does): at most `max` bytes per read call (0 = no limit),
+// cycling through `pattern` when one is given
+
+pub struct Src<'a> {
+    buf: &'a [u8],
+    pos: usize,
+    pattern: Vec<usize>,
+    k: usize,
+    pub reads: usize,
+}
+
+impl<'a> Src<'a> {
+    pub fn new(buf: &'a [u8], pattern: Vec<usize>) -> Self { Src { buf, pos: 0, pattern, k: 0, reads: 0 } }
+    pub fn position(&self) -> u64 { self.pos as u64 }
+}
+
+impl<'a> std::io::Read for Src<'a> {
+    fn read(&mut self, out: &mut [u8]) -> std::io::Result<usize> {
+        let mut n = out.len().min(self.buf.len() - self.pos);
+        if !self.pattern.is_empty() && n > 0 {
+            let lim = self.pattern[self.k % self.pattern.len()].max(1);
+            self.k += 1;
+            n = n.min(lim);
+        }
+        out[..n].copy_from_slice(&self.buf[self.pos..self.pos + n]);
+        self.pos += n;
+        self.reads += 1;
+        Ok(n)
+    }
+}
+
+/// `plain`, `enc:<key>`, each optionally followed by `;chunk=a.b.c` (sizes of successive short reads, cycled)
+pub fn split_crypt(crypt: &str) -> (&str, Vec<usize>) {
+    match crypt.split_once(";chunk=") {
+        Some((c, p)) => (c, p.split('.').filter_map(|x| x.parse().ok()).collect()),
+        None => (crypt, vec![]),
+    }
+}
+
+// ------------------------------------------------------------------------------------------------
 // world tables
 
 macro_rules! world_table {
@@ -249,7 +289,7 @@ macro_rules! world_table {
             }
 
             #[cfg(feature = "encryption")]
-            fn one_c<M: ClientMessage>(c: &mut Cursor<&[u8]>, d: Option<&mut SD>) -> Result<Vec<u8>, String> {
+            fn one_c<M: ClientMessage>(c: &mut Src, d: Option<&mut SD>) -> Result<Vec<u8>, String> {
                 let r = match d {
                     None => X::expect_client_message::<M, _>(c),
                     Some(d) => X::expect_client_message_encryption::<M, _>(c, d),
@@ -260,7 +300,7 @@ macro_rules! world_table {
                 }
             }
             #[cfg(feature = "encryption")]
-            fn one_s<M: ServerMessage>(c: &mut Cursor<&[u8]>, d: Option<&mut CD>) -> Result<Vec<u8>, String> {
+            fn one_s<M: ServerMessage>(c: &mut Src, d: Option<&mut CD>) -> Result<Vec<u8>, String> {
                 let r = match d {
                     None => X::expect_server_message::<M, _>(c),
                     Some(d) => X::expect_server_message_encryption::<M, _>(c, d),
@@ -271,17 +311,18 @@ macro_rules! world_table {
                 }
             }
             #[cfg(feature = "encryption")]
-            fn expect_client(name: &str, c: &mut Cursor<&[u8]>, d: Option<&mut SD>) -> Option<Result<Vec<u8>, String>> {
+            fn expect_client(name: &str, c: &mut Src, d: Option<&mut SD>) -> Option<Result<Vec<u8>, String>> {
                 match name { $( stringify!($c) => Some(one_c::<X::$c>(c, d)), )* _ => None }
             }
             #[cfg(feature = "encryption")]
-            fn expect_server(name: &str, c: &mut Cursor<&[u8]>, d: Option<&mut CD>) -> Option<Result<Vec<u8>, String>> {
+            fn expect_server(name: &str, c: &mut Src, d: Option<&mut CD>) -> Option<Result<Vec<u8>, String>> {
                 match name { $( stringify!($s) => Some(one_s::<X::$s>(c, d)), )* _ => None }
             }
 
             /// read a whole stream message by message
             #[cfg(feature = "encryption")]
             pub fn stream(dir: &str, reader: &str, crypt: &str, names: &str, plain: &[u8]) -> String {
+                let (crypt, pattern) = split_crypt(crypt);
                 let key = crypt.strip_prefix("enc:").map(key40);
                 let mut s = String::new();
                 let names: Vec<&str> = if names == "-" { vec![] } else { names.split(',').collect() };
@@ -311,7 +352,7 @@ macro_rules! world_table {
                     s.push_str(&format!("{},{},", out_field("enc", &enc), out_field("plain2", &plain2)));
                     data = enc;
                 }
-                let mut c = Cursor::new(&data[..]);
+                let mut c = Src::new(&data[..], pattern);
                 let mut msgs = String::new();
                 let mut i = 0usize;
                 let mut count = 0usize;
@@ -327,10 +368,12 @@ macro_rules! world_table {
                             r.map(|m| { let mut o = Vec::new(); let _ = m.write_unencrypted_server(&mut o); o }).map_err(|e| world_err(&e))
                         }
                     } else {
+                        // a name prefixed with '!' is a deliberate mismatch: the helper is asked for a message that is not the next one
+                        let nm = names[i].trim_start_matches('!');
                         let r = if dir == "client" {
-                            expect_client(names[i], &mut c, halves.as_mut().map(|h| &mut h.3))
+                            expect_client(nm, &mut c, halves.as_mut().map(|h| &mut h.3))
                         } else {
-                            expect_server(names[i], &mut c, halves.as_mut().map(|h| &mut h.1))
+                            expect_server(nm, &mut c, halves.as_mut().map(|h| &mut h.1))
                         };
                         match r { Some(r) => r, None => Err(format!("\"result\":\"noapi\",\"name\":{}", jstr(names[i]))) }
                     };
@@ -338,11 +381,15 @@ macro_rules! world_table {
                     count += 1;
                     match r {
                         Ok(o) => msgs.push_str(&format!("{{\"result\":\"ok\",\"pos\":{},{}}}", c.position(), out_field("out", &o))),
-                        Err(e) => { msgs.push_str(&format!("{{{},\"pos\":{}}}", e, c.position())); break; }
+                        Err(e) => {
+                            msgs.push_str(&format!("{{{},\"pos\":{}}}", e, c.position()));
+                            let deliberate = reader == "expect" && names[i].starts_with('!') && e.contains("\"err_kind\":\"Opcode\"");
+                            if !deliberate { break; }
+                        }
                     }
                     i += 1;
                 }
-                s.push_str(&format!("\"result\":\"done\",\"stream_len\":{},\"msgs\":[{}]", data.len(), msgs));
+                s.push_str(&format!("\"result\":\"done\",\"stream_len\":{},\"reads\":{},\"msgs\":[{}]", data.len(), c.reads, msgs));
                 s
             }
         }
